@@ -2,7 +2,7 @@
    Statements only; proofs are in Proofs/ValidateOverlap.v and Proofs/ValidateRules.v. *)
 From Coq Require Import List NArith ZArith String Bool.
 From GQL Require Import Exec.Syntax Validate.VSyntax Validate.Overlap Validate.OverlapSpec Validate.Rules
-     Exec.Exec Proofs.ValidateOverlap Proofs.ValidateRules Proofs.ValidateMerge Proofs.ValidateMemo Proofs.ValidateInputFields Proofs.ValidateArgs Proofs.ValidateCycles Proofs.ValidateUnused Proofs.ValidateMemoHard Proofs.ValidateL1 Validate.All Proofs.ValidateAll.
+     Exec.Exec Proofs.ValidateOverlap Proofs.ValidateRules Proofs.ValidateMerge Proofs.ValidateMemo Proofs.ValidateInputFields Proofs.ValidateArgs Proofs.ValidateCycles Proofs.ValidateUnused Proofs.ValidateMemoHard Proofs.ValidateL1 Validate.All Proofs.ValidateAll Proofs.ValidateCyclesComplete.
 Import ListNotations.
 Open Scope string_scope.
 
@@ -260,6 +260,14 @@ Theorem C02_rule_complete_no_unused_fragments_partial : forall W,
 Proof. exact no_unused_fragments_complete. Qed.
 Print Assumptions C02_rule_complete_no_unused_fragments_partial.
 
+(* NoFragmentCycles, both directions: with unique fragment names the DFS as coded reports an
+   error exactly when some fragment reaches itself through spreads. *)
+Theorem C02_rule_iff_no_fragment_cycles : forall W,
+  NoDup (map wf_name (w_frags W)) ->
+  (rule_no_fragment_cycles W <> [] <-> Violates_no_fragment_cycles W).
+Proof. exact no_fragment_cycles_iff. Qed.
+Print Assumptions C02_rule_iff_no_fragment_cycles.
+
 (* NoUnusedFragments, both directions, when the closure iteration of the model did not fall
    short (closures_stable is an executable test; RecursivelyReferencedFragments itself is a
    terminating worklist). *)
@@ -271,13 +279,13 @@ Print Assumptions C02_rule_iff_no_unused_fragments.
 
 (* The validator's model accepts a document iff no rule is violated (Violates r is the
    declarative predicate of rule r; for the overlap rule it is ~ L1_accepts).  Hypotheses =
-   the documented exceptions: the closure test above; completeness of the NoFragmentCycles
-   DFS; for the overlap rule acyclicity and "the memoised algorithm's acceptance implies L1"
+   the documented exceptions: the closure test above; unique fragment names (needed by the
+   NoFragmentCycles DFS); for the overlap rule acyclicity and "the memoised algorithm's acceptance implies L1"
    (proved: L1 => acceptance, and acceptance of L3 => acceptance of the unmemoised algorithm;
    not proved: the reflection of the unmemoised executable into the Prop-level decomposition). *)
 Theorem C02_accept_iff : forall fuel S W,
   closures_stable W = true ->
-  (Violates_no_fragment_cycles W -> rule_no_fragment_cycles W <> []) ->
+  NoDup (map wf_name (w_frags W)) ->
   acyclic S (erase W) ->
   (run_overlap S (erase W) true fuel = [] -> L1_accepts S (erase W)) ->
   (validate_model fuel S W = [] <-> forall r, ~ Violates r S W).
